@@ -29,3 +29,40 @@ Theorem c11_dataset_level : forall hs hs' s s' t,
   (forall r w, mem_pair (r, w) (te s) = mem_pair (r, w) (te s')).
 Proof. exact order_dup_invariant. Qed.
 Print Assumptions c11_dataset_level.
+
+(** * Order-independence of the FULL graph model (Holder/OrderFree.v, corollaries of the composition theorem and of the
+    refinement theorem).  "Every iteration order of a hash-ordered set" is, in the model, every insertion order of the same
+    nodes and edges and every order / repetition of the statements. *)
+From SV Require Import Holder.CompDefs Holder.Refinement Holder.Composition Holder.OrderFree.
+
+(** the printed end-to-end column pairs do not depend on the order or repetition of the statements ... *)
+Theorem c11_column_pairs_statement_order_free : forall p hs hs',
+  c04_hyps hs = true -> (forall h, In h hs <-> In h hs') -> pairs_of p hs = pairs_of p hs'.
+Proof. exact pairs_of_statement_order_free. Qed.
+Print Assumptions c11_column_pairs_statement_order_free.
+
+(** ... nor on the order in which the nodes and edges of the statement graphs were inserted *)
+Theorem c11_column_pairs_insertion_order_free : forall p hs hs',
+  Forall2 holder_equiv_lit hs hs' -> c04_hyps hs = true -> pairs_of p hs = pairs_of p hs'.
+Proof. exact pairs_of_insertion_order_free. Qed.
+Print Assumptions c11_column_pairs_insertion_order_free.
+
+Theorem c11_permuted_graphs_are_equivalent : forall h h', Permutation (gnodes (hg h)) (gnodes (hg h')) ->
+  Permutation (gedges (hg h)) (gedges (hg h')) -> Permutation (h_renames h) (h_renames h') -> holder_equiv_lit h h'.
+Proof. exact permuted_equiv_lit. Qed.
+Print Assumptions c11_permuted_graphs_are_equivalent.
+
+(** table roles of the full model: the same statements in any order, with any repetition, print the same role lists *)
+Theorem c11_roles_full_model_order_free : forall p hs hs',
+  all_wf hs -> all_plain hs -> (forall h, In h hs <-> In h hs') ->
+  exists g g', build p hs = BOk g /\ build p hs' = BOk g' /\ printed_roles g = printed_roles g'.
+Proof. exact roles_full_model_statement_order_free. Qed.
+Print Assumptions c11_roles_full_model_order_free.
+
+(** the hypotheses are needed: with Python-equal column objects that differ in their candidate parents the stored object
+    depends on insertion order (and so does the print-out), and a chained RENAME depends on the order of its pairs *)
+Theorem c11_resolved_hypothesis_needed :
+  holder_equiv (h_res x_none x_ab) (h_res x_ab x_none) /\
+  resolved_holder (h_res x_none x_ab) = true /\ resolved_holder (h_res x_ab x_none) = false.
+Proof. exact resolved_not_invariant. Qed.
+Print Assumptions c11_resolved_hypothesis_needed.
